@@ -1,1 +1,3 @@
+pub mod assign;
 pub mod geom;
+pub mod kalman;
